@@ -32,7 +32,10 @@ pub fn yuv(cmd: &Value) -> Value {
 /// y = ys, chroma sample j = sweep_c(cb, j) / sweep_c(cr, j) (neighbouring chroma samples differ, so each pixel pair
 /// must use its own); "px"[(cb*256+cr)*w + k] is pixel k.  Widths that are not multiples of 4 reach the code that
 /// converts the pixels left over after the last whole group of four.
-fn sweep_c(v: u8, j: usize) -> u8 {
+fn sweep_c(v: u8, j: usize, same: bool) -> u8 {
+    if same {
+        return v; // "same": all chroma samples of the row are equal (flat chroma, e.g. neutral everywhere)
+    }
     let base = if j % 2 == 0 { v as usize } else { 255 - v as usize };
     ((base + 64 * (j / 2)) % 256) as u8
 }
@@ -42,13 +45,14 @@ pub fn yuv_sweep(cmd: &Value) -> Value {
     let ys = bytes(&cmd["ys"]);
     let w = ys.len();
     let cw = (w + 1) / 2;
+    let same = cmd["same"].as_bool().unwrap_or(false);
     let r = guarded(|| {
         let mut px = Vec::with_capacity(65536 * w);
         let mut lens_ok = true;
         for cb in 0..=255u8 {
             for cr in 0..=255u8 {
-                let cbs: Vec<u8> = (0..cw).map(|j| sweep_c(cb, j)).collect();
-                let crs: Vec<u8> = (0..cw).map(|j| sweep_c(cr, j)).collect();
+                let cbs: Vec<u8> = (0..cw).map(|j| sweep_c(cb, j, same)).collect();
+                let crs: Vec<u8> = (0..cw).map(|j| sweep_c(cr, j, same)).collect();
                 let out = h263_rs_yuv::bt601::yuv420_to_rgba(&ys, &cbs, &crs, w);
                 if out.len() != 4 * w {
                     lens_ok = false;
